@@ -217,6 +217,9 @@ func runC09(rng *rand.Rand, scale int, out string, shards int, seed int64, corpu
 		if !injectFault(rng, in, cl, pl, files) {
 			continue
 		}
+		if i%4 == 3 {
+			in = percentNames(rng, in) // `%` in file and directory names
+		}
 		do(in)
 	}
 	// 3. mutations
@@ -250,6 +253,9 @@ func runC09(rng *rand.Rand, scale int, out string, shards int, seed int64, corpu
 		if ref.Err && ref.Cls != 20 {
 			g.HasExpect, g.ExpectCls, g.ExpectPos, g.ExpectChain = true, ref.Cls, ref.Pos, ref.Chain
 		}
+		if i%3 == 2 {
+			g = percentNames(rng, g)
+		}
 		do(g)
 		graphs = append(graphs, g)
 	}
@@ -269,6 +275,13 @@ func runC09(rng *rand.Rand, scale int, out string, shards int, seed int64, corpu
 			break
 		}
 		do(selfRefCase(rng))
+	}
+	// 5e. storylines / edits with multi-byte runes colliding with scene letters
+	for i := 0; i < 150*scale; i++ {
+		if hung {
+			break
+		}
+		do(storylineRuneCase(rng))
 	}
 	// 5b. cast multiplicities (bounded above), written out and through parameters
 	mults := []string{"-9223372036854775808", "-2147483649", "-4", "-1", "0", "1", "2", "7", "40", "+2", "007", "-0", "1.5", "two", "", "~undefinedn~", "0x10", "1e2", "99999999999999999999", "-"}
